@@ -831,3 +831,52 @@ def _side_effect_free_target(t: ast.AST) -> bool:
     if isinstance(t, ast.Subscript):
         return _simple_arg(t.value) and (_simple_arg(t.slice) or isinstance(t.slice, ast.Constant))
     return False
+
+
+def canonicalise_parallel_assignments(tree: ast.AST) -> int:
+    """`a, b = x, y` over plain distinct names, where neither x nor y reads a or b, is loaded as `a = x; b = y`
+    (same evaluation order, same bindings): rules that follow a single definition see through the packed form."""
+    n = 0
+
+    def split(s: ast.stmt) -> Optional[List[ast.stmt]]:
+        if not (isinstance(s, ast.Assign) and len(s.targets) == 1 and isinstance(s.targets[0], ast.Tuple) and isinstance(s.value, ast.Tuple)):
+            return None
+        ts, vs = s.targets[0].elts, s.value.elts
+        if len(ts) != len(vs) or len(ts) < 2 or not all(isinstance(t, ast.Name) for t in ts) or any(isinstance(v, ast.Starred) for v in vs):
+            return None
+        names = [t.id for t in ts]
+        if len(set(names)) != len(names):
+            return None
+        for v in vs:
+            for x in ast.walk(v):
+                if isinstance(x, ast.Name) and x.id in names:
+                    return None
+                if isinstance(x, (ast.NamedExpr, ast.Lambda)):
+                    return None
+        return [ast.copy_location(ast.Assign(targets=[t], value=v, type_comment=None), s) for t, v in zip(ts, vs)]
+
+    def walk(stmts: List[ast.stmt]) -> List[ast.stmt]:
+        nonlocal n
+        out: List[ast.stmt] = []
+        for s in stmts:
+            for f in ("body", "orelse", "finalbody"):
+                sub = getattr(s, f, None)
+                if isinstance(sub, list) and sub and isinstance(sub[0], ast.stmt):
+                    setattr(s, f, walk(sub))
+            for h in getattr(s, "handlers", []) or []:
+                h.body = walk(h.body)
+            for c in getattr(s, "cases", []) or []:
+                c.body = walk(c.body)
+            r = split(s)
+            if r is None:
+                out.append(s)
+            else:
+                n += 1
+                out.extend(r)
+        return out
+
+    for node in ast.walk(tree):
+        if isinstance(node, (ast.FunctionDef, ast.AsyncFunctionDef)):
+            node.body = walk(node.body)
+    ast.fix_missing_locations(tree)
+    return n
